@@ -97,3 +97,11 @@ package absnfs
 //@ loop 1 invariant s.handler != nil ==> curTuning(s.handler) != nil
 //@ callassert net.Conn.Close : [closed-means-not-counted] !has(s.activeConns, conn)
 //@ callassert Server.acceptLoop$1 : [served-means-counted] s.handler != nil ==> has(s.activeConns, conn)
+
+// ---- every idle connection is collected (added after a seeded "request in flight" exemption, which was never
+// cleared for a refused call, was not detected): the scan goes on to the next connection only after the one just
+// examined was appended to the list of connections to close - unless it was not idle; and the second loop closes
+// every member of that list (its back edge follows the Close and unregister calls of the element just taken)
+//@ also Server.cleanupIdleConnections
+//@ loop 1 backedge [idle-connections-are-collected] after state : real(idleTimeout) / 1000000000.0 < tsec(now) - tsec(state.lastActivity) ==> len(idleConns) > 0 && idleConns[len(idleConns) - 1] == conn
+//@ callassert Server.unregisterConnection : [every-collected-connection-is-unregistered] arg1 == idleConns[rangeindex] && connClosed[valof(idleConns[rangeindex])]
